@@ -21,11 +21,25 @@ claim("C09",
   "(path x_header_path, path x_header, query X, header x -> two parameters x_header_path, no error). "
   "(c) enum member keys: values_from_list_keys_nodup (Values.v). (d) classes: classes_distinct_or_error (generated class names pairwise distinct; every schema generated or reported; of two schemas with one derived "
   "ClassName the later is reported) and modules_unchecked_refuted (AB / Ab: two classes, one module ab). "
+  "(e) attributes of a schema composed with allOf, where merging (Merge.v, C15) and the name-conflict scan interact: ProcProps.v models the loop of _process_properties over the incoming properties "
+  "(referenced members' properties with the python names their own processing left on them, own properties, inline members' properties) - merge with the stored property of the same document name "
+  "(Merge.add_prop), python name of the merged object = that of whichever side _merge_common_attributes takes as base (base_is_new, branch by branch), scan over the other entries SKIPPING the same-name entry "
+  "(Scopes.scan_conflicts reused), store - and the document level (leaf members processed first, required-first order, required-set union). ProcPropsThm.v, for ALL incoming lists: process_names_exact (exactly the "
+  "incoming document names, each once, in order of first appearance), process_collect (payloads = Merge.collect, so C15's theorems hold for the real loop), process_python_names_distinct (incoming names default + "
+  "g_no_raw_fallback on the distinct document names => never the naming diagnostic, nothing renamed, python names = default names, pairwise distinct), process_quiet_distinct (NO static guard, arbitrary incoming "
+  "python names: a successful run without any raw-name fallback - run-time guard g_quiet - ends with pairwise distinct python names; this is where a merged property whose python name reverted to the new "
+  "declaration's one must be compared with every other entry), add_pp_guarantee (no guard: what one step guarantees), process_doc_flat / process_doc_quiet_distinct / process_doc_python_names_distinct (the same for the composed "
+  "schema of a document), process_step_distinct_refuted (member {fooBar, FooBar}, then Foo_bar, $foo_Bar, foo_Bar, then fooBar re-declared as date: distinct before the merge step, two attributes foo_Bar after it; "
+  "confirmed on the real parser; same call site as attr_rename_unchecked), non-vacuity process_merge_fallback (startDate, start_date, startDate re-declared as date) and process_guard_nonvacuous. "
   "Correspondence evaluated inside Coq: ~25k (function,string) cases per quick run for Names.v; ~1.7k name lists per quick run for Scopes.v through the real property_from_data (object schema -> python names or "
-  "'Conflicting property names'), Endpoint.add_parameters (python names in iteration order or ParseError) and GeneratorData.from_dict (class names + duplicate-model errors). The oracle "
+  "'Conflicting property names'), Endpoint.add_parameters (python names in iteration order or ParseError) and GeneratorData.from_dict (class names + duplicate-model errors); ~1k (quick) / ~14k (thorough) random components-only documents "
+  "(composed schema Z = allOf of 2-4 referenced / inline objects + own properties over name families that collide after snake-casing, kinds any/string/date/date-time/integer/number/string and int enums inline and by $ref, "
+  "frequent re-declaration with type refinement) through GeneratorData.from_dict: Z's (name, python_name, property class, enum values, required) in required-then-optional order, or which of the three diagnostics "
+  "(merge / same python_name / member not processed), == ProcProps.process_doc inside Coq; on the same outputs the oracle demands pairwise distinct valid python names and accepts a duplicate as attr_rename_unchecked only when "
+  "the model of the unchanged algorithm itself yields a duplicate on that document and g_quiet is false. The oracle "
   "(isidentifier/iskeyword/pairwise distinct/not reserved on the implementation's own output, plus name sets through the full parser) classifies failures by the Coq guards evaluated on the failing input into known findings vs violations.",
   "Trusted: Coq kernel+vm_compute; gen_tables.py translator; CPython str/re semantics; the hand-written models' regex/dict semantics (validated by correspondence only); str.lower() final-sigma context rule is not modelled "
-  "(strings compared modulo sigma fold; scope name lists avoid U+03A3); same-name properties arriving through allOf (merge) and class_overrides are outside Scopes.v (C15, C16); tag/operation module scope is checked by oracle only.",
+  "(strings compared modulo sigma fold; scope name lists avoid U+03A3); same-name properties arriving through allOf are modelled in ProcProps.v with these abstractions: `prop1 == prop2` also compares python_name (Merge.merge returns p1 where the code copies it with its own default converted again), referenced members are leaf object schemas and the composed schema is listed before them, so that it is attempted once (a schema listed after its members is re-attempted by _process_models on property objects whose python names the failed first attempt already changed in place - observed: member {a$B}, own aB: diagnostic when Z is listed first, success with python names aB / a_b when listed last; a referenced member's own attribute is renamed in place when a child collides with it); inline enum class-name conflicts are avoided by the generator; class_overrides are outside (C16); tag/operation module scope is checked by oracle only.",
   "Coq proof (induction + table reflection) + in-Coq differential correspondence", "4/C09")
 
 claim("C19",
@@ -124,7 +138,8 @@ claim("C15",
   "iff a member requires it), merge_kind_narrowest (result kind = narrow_kind: integer over number, date/date-time/file over string, enum or literal enum over its base type, any yields), merge_wf, "
   "merge_type_symmetric (under the guard g_merge both member orders give the same type: kind, enum value SET, the smaller enum, item type), merge_incompatible_symmetric (no common kind => a diagnostic in both orders), "
   "collect_names / collect_required (the composed class has exactly the members' property names, each once, required iff some declaration is), merge_nonvacuous; refutation witnesses for the guard's complement and for "
-  "what the theorems deliberately do not claim: merge_first_wins_refuted, collect_order_refuted (three declarations: fold order matters), merge_enum_default_stale_refuted. The model is tied to the code on every run by "
+  "what the theorems deliberately do not claim: merge_first_wins_refuted, collect_order_refuted (three declarations: fold order matters), merge_enum_default_stale_refuted; process_collect / process_names_exact / "
+  "process_required / process_doc_names_exact (ProcPropsThm.v: the full loop of _process_properties including the python-name conflict scan of C09 collects exactly what collect collects; correspondence in harness/props/c09.py). The model is tied to the code on every run by "
   "(1) ~24k (quick) / ~90k (thorough) calls of the real merge_properties on real property objects built by property_from_data - every ordered pair of 46 variants covering the 16 kinds x required x default, plus "
   "hostile defaults - compared inside Coq with Merge.merge (MOk/MErr/MCrash, kind, required, default code + raw value, description/example, enum table / literal set / item / const / union / model identity), and "
   "(2) the real _process_properties on random allOf lists (referenced, composed and inline members, required lists) compared with Merge.collect. Stage C generates exhaustive two-member and random chained documents "
@@ -336,8 +351,11 @@ claim("C08",
   "property_from_data on an empty Schemas, and reads from the code whether UnionProperty.build takes `roots`); it is checked by the correspondence on every run but is not proved. wf_graph is a fact about the abstraction "
   "(evaluated on every case). Intrinsic validity of leaves, merge_properties conflicts other than primitive type clashes, python-name clashes and defaults on unions/wrappers are outside the model (flagged `imprecise`, not generated). "
   "The containment theorems are about the survivor sets of the model (classes_by_reference keys); byte identity of the rendered modules is established by the oracle, not proved. Endpoint-level containment is oracle only. "
-  "On the unchanged tree g_no_union_edge_to_failing fails for references inside anyOf/oneOf (known finding union_dependency_unrecorded; a fix that keeps the pinned tests unchanged is in /verif/fixes/C08_union_roots.diff - after applying it "
-  "nothing in Graph.v changes: the abstraction detects the new `roots` parameter, emits recorded union-member edges, the first conjunct of the guard then holds by construction, and the known_findings entry is to be marked fixed).",
+  "Before commit 204aaa6 g_no_union_edge_to_failing failed for references inside anyOf/oneOf (finding union_dependency_unrecorded, now fixed by /verif/fixes/C08_union_roots.diff: nothing in Graph.v changed, "
+  "the abstraction detects the `roots` parameter of UnionProperty.build and emits recorded union-member edges, so the first conjunct of the guard holds by construction; the recorded witness is replayed on every run and "
+  "a recurrence is a VIOLATION). The generated base documents of stage C are pinned in corpus/C08/base_docs.json. A module of a non-dependant model may differ in exactly one accepted way, decided by an exact ast test plus a "
+  "structural guard on the base document (every operation that sends the model as multipart/form-data is affected by the bad piece): it loses to_multipart / `import json` (known finding multipart_flag_follows_operation); "
+  "classes minted by operations (inline bodies etc.) are attributed to the operations whose modules import them.",
   "Coq proof (invariants over fuel-indexed loops, closure of the removal work list, least fixed points, locality) + in-Coq differential correspondence on abstracted graphs + differential tree oracle D vs D+b", "4/Graph.v, 4/C08")
 
 claim("C07",
